@@ -328,7 +328,15 @@ fn c07_wrap_case(u: &Universe, probes: &[P], refs: &[Arc<Dfa>], hist: &[usize], 
 }
 
 pub struct C07Engine;
-const C07_NB: usize = 96;
+/// batches: a worker process leaks every term of every manager it creates (the crate never frees terms), so the
+/// thorough tier, with 50 times more runs, is cut into more (shorter-lived) worker processes
+fn c07_nb(tier: Tier) -> usize {
+    if tier == Tier::Thorough {
+        1536
+    } else {
+        96
+    }
+}
 
 fn c07_events(np: usize, with_derive: bool) -> Vec<Ev> {
     let mut v = vec![];
@@ -425,17 +433,26 @@ impl Engine for C07Engine {
             space: format!("{}: all event sequences of length <= {} over {} events, plus all sequences of {} build events, plus 2 x {} long histories (every probe explored, half of them differentiated, in every rotation of the probe order and its reverse)", ctx.tier.name(), if ctx.tier == Tier::Thorough { 3 } else { 2 }, 3 * np, if ctx.tier == Tier::Thorough { 4 } else { 3 }, np),
         }
     }
-    fn num_batches(&self, _ctx: &Ctx) -> usize {
-        C07_NB
+    fn num_batches(&self, ctx: &Ctx) -> usize {
+        c07_nb(ctx.tier)
+    }
+    fn max_group(&self, ctx: &Ctx, _batch: usize) -> usize {
+        // thorough: one batch per worker process (memory, see c07_nb)
+        if ctx.tier == Tier::Thorough {
+            1
+        } else {
+            usize::MAX
+        }
     }
     fn run_batch(&self, ctx: &Ctx, batch: usize, rep: &mut Report) {
+        let nb7 = c07_nb(ctx.tier);
         let u = Universe::new(0);
         let probes = c07_probes();
         let mut cache = RefCache::new(u.clone());
         let refs: Vec<Arc<Dfa>> = probes.iter().map(|p| cache.dfa(p)).collect();
         let np = probes.len();
         c07_histories(ctx.tier, np, &mut |i, h| {
-            if i % C07_NB != batch {
+            if i % nb7 != batch {
                 return;
             }
             beat();
@@ -475,7 +492,7 @@ impl Engine for C07Engine {
                 }
             }
             for (i, h) in hs.iter().enumerate() {
-                if i % C07_NB != batch {
+                if i % nb7 != batch {
                     continue;
                 }
                 beat();
@@ -511,7 +528,7 @@ impl Engine for C07Engine {
         for h in &hs {
             for probe in 0..np {
                 k += 1;
-                if k % C07_NB != batch {
+                if k % nb7 != batch {
                     continue;
                 }
                 beat();
@@ -702,6 +719,24 @@ fn c10_subjects(tier: Tier) -> Vec<Vec<u32>> {
     crate::strs::all_strings(&[A, A + 1, A + 2], if tier == Tier::Thorough { 6 } else { 4 })
 }
 
+/// periodic subjects of length 15, 16, 17, 31, 32, 33, 64, 65 over the first letters of the universe
+fn c10_long_subjects(u: &Universe) -> Vec<Vec<u32>> {
+    let letters: Vec<u32> = if u.id == 4 { vec![0x42, 0x142, 0x41] } else { vec![A, A + 1, A + 2] };
+    let units: Vec<Vec<u32>> = vec![vec![letters[0]], vec![letters[0], letters[1]], vec![letters[0], letters[1], letters[2]], vec![letters[0], letters[0], letters[1]]];
+    let mut v = vec![];
+    for len in [15usize, 16, 17, 31, 32, 33, 64, 65] {
+        for un in &units {
+            let mut s: Vec<u32> = un.iter().cycle().take(len).copied().collect();
+            v.push(s.clone());
+            // one odd character near the end
+            let l = s.len();
+            s[l - 2] = letters[2];
+            v.push(s);
+        }
+    }
+    v
+}
+
 /// second set: characters that differ by a multiple of 256 (universe 4): level 1 over its ranges
 fn c10_regexes_u4() -> Vec<P> {
     let fam = LevelFamily::new("c10/u4", Universe::new(4), &[(1, 1), (3, 3), (1, 3), (2, 4), (0, 4), (0, 1)], uops_quick(), usize::MAX);
@@ -801,7 +836,7 @@ impl Engine for C10Engine {
     fn meta(&self, ctx: &Ctx) -> Meta {
         Meta {
             level: "model_checking",
-            rule: format!("{} regular expressions (level 1, all unary and a slice of binary level-2 programs, literal strings of length <= 4 under star/plus/opt/complement/union, x.*y patterns, open-ended middles, starred blocks followed by literals/alternatives, intersections of different spellings of one literal; a second set over characters that differ by multiples of 256) built with the SMT-LIB wrappers x all {} subject strings over {{a,b,c}} (resp. {{0x41,0x42,0x142,0x242}}) x 3 replacement strings; expected results computed from the reference DFA by scanning (start, end) in lexicographic order: first match with possibly empty body for str_replace_re, repeated first non-empty match for str_replace_re_all; states = (regex, subject) pairs, transitions = replace calls; non-trivial = cases in which replace_re_all changes the subject", c10_regexes(ctx.tier).len() + c10_regexes_u4().len(), c10_subjects(ctx.tier).len()),
+            rule: format!("{} regular expressions (level 1, all unary and a slice of binary level-2 programs, literal strings of length <= 4 under star/plus/opt/complement/union, x.*y patterns, open-ended middles, starred blocks followed by literals/alternatives, intersections of different spellings of one literal; a second set over characters that differ by multiples of 256) built with the SMT-LIB wrappers x all {} subject strings over {{a,b,c}} (resp. {{0x41,0x42,0x142,0x242}}) x 3 replacement strings, and every 16th regex on 64 periodic subjects of 15 to 65 characters; expected results computed from the reference DFA by scanning (start, end) in lexicographic order: first match with possibly empty body for str_replace_re, repeated first non-empty match for str_replace_re_all; states = (regex, subject) pairs, transitions = replace calls; non-trivial = cases in which replace_re_all changes the subject", c10_regexes(ctx.tier).len() + c10_regexes_u4().len(), c10_subjects(ctx.tier).len()),
             assumptions: vec!["SMT-LIB 2.6 str.replace_re / str.replace_re_all: shortest leftmost match, empty match allowed only for replace_re".into()],
             exhaustive: true,
             space: "see rule".into(),
@@ -841,6 +876,22 @@ impl Engine for C10Engine {
                         }
                         if let Some(m) = c10_check(&u, p, &rf, tw, s, t) {
                             rep.violation("C10", "c10", json!({"universe": u.id, "prog": p.show(), "s": s, "t": t}), m);
+                        }
+                    }
+                }
+                // long subjects (block sizes of buffers and copy loops): periodic strings of 15..65 characters, for every
+                // 16th regex of the set
+                if k % 16 == 3 {
+                    for s in c10_long_subjects(&u) {
+                        rep.inc("states");
+                        rep.inc("long_subjects");
+                        for t in [C10_REPL[0], C10_REPL[2]] {
+                            rep.inc("evaluations");
+                            rep.add("transitions", 2);
+                            rep.add("impl_traces", 2);
+                            if let Some(m) = c10_check(&u, p, &rf, tw, &s, t) {
+                                rep.violation("C10", "c10", json!({"universe": u.id, "prog": p.show(), "s": s, "t": t}), m);
+                            }
                         }
                     }
                 }
